@@ -21,6 +21,9 @@ ASSUMPTIONS = [
     "oracle: GMST-82, ERA, IAU-76 precession, 35-term IAU-1980 nutation, pole axis in vf/oracles/earth.py "
     "(self-tested on Meeus' worked examples); UT1 / TT readings and x, y, LOD from the independent IERS "
     "reader vf/oracles/iers.py",
+    "the date handed to the library carries a drawn scale label (UTC/TAI/TT/GPS everywhere; also UT1/TDB in the "
+    "reference, chain and EOP-switch facets, whose tolerances absorb the 1 us relabelling quantum); the oracle always "
+    "works from the UTC reading of the instant",
     "instants are kept >= 50 min away from 0h UTC: which day's EOP record serves next to midnight, and leap "
     "seconds, are decided by C03 / C04",
     "the derivative clause is not applied to QSW / TNW orientations (instantaneous axes, no rate by design); "
@@ -155,7 +158,8 @@ def _base_case(draw, shard, worlds_per_shard=3):
     spec = world_spec(wid, jpl)
     mjd = spec["epoch"] + d.int(-2, 1)
     sod = d.int(3000, 83400) * 10**6 + d.int(0, 999) * 1000 + d.int(0, 999)
-    return d, dict(shard=shard, jpl=jpl, world=wid, mjd=mjd, sod_us=sod, state=_state(d))
+    return d, dict(shard=shard, jpl=jpl, world=wid, mjd=mjd, sod_us=sod, state=_state(d),
+                   label=EXACT_LABELS[(d.int(0, 3) + shard) % 4])
 
 
 @st.composite
@@ -188,13 +192,21 @@ def ref_case(draw, shard, tier, chains=False):
     # four date bands walked through by the shards (few examples per shard)
     band = shard % 4 if chains else (shard // 3) % 4
     lo = 41700 + band * 4025
-    return dict(shard=shard, mjd=d.int(lo, lo + 4024), sod_us=d.int(300, 86100) * 10**6 + d.int(0, 999999))
+    return dict(shard=shard, mjd=d.int(lo, lo + 4024), sod_us=d.int(300, 86100) * 10**6 + d.int(0, 999999),
+                label=ALL_LABELS[(d.int(0, 5) + shard) % 6])
 
 
-def mkdate(mjd, sod_us):
+EXACT_LABELS = ("UTC", "TAI", "TT", "GPS")  # whole-microsecond offsets: relabelling is lossless
+ALL_LABELS = EXACT_LABELS + ("UT1", "TDB")  # relabelling rounds the instant to 1 us (7e-11 rad of ERA)
+
+
+def mkdate(mjd, sod_us, label="UTC"):
+    """The instant whose *UTC* reading is (mjd, sod_us), labelled in `label`.  The oracle is always
+    fed the UTC / UT1 / TT readings of the instant, whatever label the library is handed."""
     from beyond.dates import Date
 
-    return Date(int(mjd), sod_us / 1e6)
+    d = Date(int(mjd), sod_us / 1e6)
+    return d if label == "UTC" else d.change_scale(label)
 
 
 def era_label(mjd):
@@ -259,7 +271,8 @@ def pair_classes(a, b):
 
 
 def case_classes(case):
-    return [f"eop:{eop_of(case['shard'])}", "jpl" if case.get("jpl") else "earth-only", era_label(case["mjd"])]
+    return [f"eop:{eop_of(case['shard'])}", "jpl" if case.get("jpl") else "earth-only", era_label(case["mjd"]),
+            f"label:{case.get('label', 'UTC')}"]
 
 
 # ----------------------------------------------------------------- facet: inverse
@@ -267,7 +280,7 @@ def case_classes(case):
 
 def check_inverse(case):
     fr = world(case["world"], case["jpl"])
-    dt = mkdate(case["mjd"], case["sod_us"])
+    dt = mkdate(case["mjd"], case["sod_us"], case.get("label", "UTC"))
     x = np.array(case["state"], float)
     names = labels_of(case)
     worst = 0.0
@@ -289,7 +302,7 @@ def check_inverse(case):
 
 def check_path(case):
     fr = world(case["world"], case["jpl"])
-    dt = mkdate(case["mjd"], case["sod_us"])
+    dt = mkdate(case["mjd"], case["sod_us"], case.get("label", "UTC"))
     x = np.array(case["state"], float)
     names = labels_of(case)
     worst = 0.0
@@ -325,7 +338,7 @@ def check_path(case):
 
 def check_rigid(case):
     fr = world(case["world"], case["jpl"])
-    dt = mkdate(case["mjd"], case["sod_us"])
+    dt = mkdate(case["mjd"], case["sod_us"], case.get("label", "UTC"))
     p = np.array(case["state"][:3], float)
     names = labels_of(case)
     worst = 0.0
@@ -374,14 +387,14 @@ OMITTED_RATE = 2e-10
 SIDEREAL_STEP = 3e-9
 
 
-def _moving(fr, x, mjd, sod_us, h, a, b):
+def _moving(fr, x, mjd, sod_us, h, a, b, label="UTC"):
     """Central difference over +-h seconds of the converted *position* of x0 + v0 (t - t0)."""
     hu = int(round(h * 1e6))
     out = []
     for sgn in (1, -1):
         t = sod_us + sgn * hu
         pos = x[:3] + x[3:] * (sgn * h)
-        out.append(convert(fr, list(pos) + list(x[3:]), mkdate(mjd, t), a, b)[:3])
+        out.append(convert(fr, list(pos) + list(x[3:]), mkdate(mjd, t, label), a, b)[:3])
     return (out[0] - out[1]) / (2 * h)
 
 
@@ -402,7 +415,8 @@ def kin_plan(a, b):
 def check_kinematics(case):
     fr = world(case["world"], case["jpl"])
     mjd, sod = case["mjd"], case["sod_us"]
-    dt = mkdate(mjd, sod)
+    label = case.get("label", "UTC")
+    dt = mkdate(mjd, sod, label)
     x = np.array(case["state"], float)
     worst = 0.0
     cls = set()
@@ -414,8 +428,8 @@ def check_kinematics(case):
             continue
         h1, h2, weight, coarse = kin_plan(a, b)
         y = convert(fr, x, dt, a, b)
-        d1 = _moving(fr, x, mjd, sod, h1, a, b)
-        d2 = _moving(fr, x, mjd, sod, h2, a, b)
+        d1 = _moving(fr, x, mjd, sod, h1, a, b, label)
+        d2 = _moving(fr, x, mjd, sod, h2, a, b, label)
         q = (h2 / h1) ** 2
         deriv = (q * d1 - d2) / (q - 1)  # Richardson: the h^2 term of both differences cancels
         if coarse:
@@ -509,7 +523,7 @@ def times_from_values(case, vals):
 def reference_checks(case, kind, vals=None):
     """All comparisons with the independent Earth-rotation model.  kind: real | zero | missing,
     or any label together with explicit values vals = dict(ut1_utc, tai_utc, x, y, lod)."""
-    dt = mkdate(case["mjd"], case["sod_us"])
+    dt = mkdate(case["mjd"], case["sod_us"], case.get("label", "UTC"))
     if vals is None:
         (du, su), (dtt, stt), rec = oracle_times(case, kind)
     else:
@@ -561,11 +575,11 @@ def reference_checks(case, kind, vals=None):
 def check_reference(case):
     kind = oracle_kind(eop_of(case["shard"]))
     worst = reference_checks(case, kind)
-    return dict(nt=True, cls=[f"eop:{kind}", era_label(case["mjd"])], ratio=worst)
+    return dict(nt=True, cls=[f"eop:{kind}", era_label(case["mjd"]), f"label:{case.get('label', 'UTC')}"], ratio=worst)
 
 
 def check_chains(case):
-    dt = mkdate(case["mjd"], case["sod_us"])
+    dt = mkdate(case["mjd"], case["sod_us"], case.get("label", "UTC"))
     M = basis_map("EME2000", "GCRF", dt)
     ang = oe.rotation_angle(M[:3])
     back = basis_map("GCRF", "EME2000", dt)
@@ -579,7 +593,8 @@ def check_chains(case):
     v = float(np.abs(M[3:]).max())
     if v > 1e-15:
         raise Violation("chains-rate", f"EME2000->GCRF leaves a velocity coupling of {v:.3g} 1/s")
-    return dict(nt=True, cls=[f"eop:{eop_of(case['shard'])}", era_label(case["mjd"])], ratio=ang / (0.1 * ARCSEC))
+    return dict(nt=True, cls=[f"eop:{eop_of(case['shard'])}", era_label(case["mjd"]), f"label:{case.get('label', 'UTC')}"],
+                ratio=ang / (0.1 * ARCSEC))
 
 
 # ----------------------------------------------------------------- facet: EOP configurations
@@ -629,7 +644,8 @@ def eopcfg_case(draw, shard, tier):
     else:
         where = "none"
         mjd = d.int(41700, 59000)
-    return dict(shard=shard, mode=mode, where=where, mjd=mjd, sod_us=d.int(300, 86100) * 10**6 + d.int(0, 999999))
+    return dict(shard=shard, mode=mode, where=where, mjd=mjd, sod_us=d.int(300, 86100) * 10**6 + d.int(0, 999999),
+                label=ALL_LABELS[(d.int(0, 5) + shard) % 6])
 
 
 def check_eopcfg(case):
@@ -639,11 +655,11 @@ def check_eopcfg(case):
     del _records[:]
     if mode == "missing-error":
         try:
-            dt = mkdate(case["mjd"], case["sod_us"])
+            dt = mkdate(case["mjd"], case["sod_us"], case.get("label", "UTC"))
         except (EopError, KeyError):
             return dict(nt=True, cls=[mode])
         raise Violation("eop-error-policy", f"policy 'error' with no data: Date built silently ({dt})")
-    dt = mkdate(case["mjd"], case["sod_us"])
+    dt = mkdate(case["mjd"], case["sod_us"], case.get("label", "UTC"))
     n_warn = len(_records)
     missing = mode != "real-warning" or case["where"] != "inside"
     if mode == "missing-pass" and n_warn:
@@ -723,7 +739,7 @@ def switch_case(draw, shard, tier):
                                ut1_utc=d.u(-0.9, 0.9), tai_utc=float(d.int(10, 37)))
         steps.append(step)
     return dict(shard=shard, mjd=d.int(lo, lo + 4024), sod_us=d.int(300, 86100) * 10**6 + d.int(0, 999999),
-                steps=steps, state=_state(d))
+                steps=steps, state=_state(d), label=ALL_LABELS[(d.int(0, 5) + shard) % 6])
 
 
 def check_switch(case):
@@ -746,7 +762,7 @@ def check_switch(case):
                 raise Violation(v.kind, f"configuration {n + 1} of {len(case['steps'])} ({kind}"
                                         f"{', after ' + prev if prev else ''}): {v.msg}", **v.data) from None
             # the composed chain under this configuration: direct = edge by edge, and there and back
-            dt = mkdate(case["mjd"], case["sod_us"])
+            dt = mkdate(case["mjd"], case["sod_us"], case.get("label", "UTC"))
             sv = StateVector(list(x), dt, "cartesian", "ITRF")
             direct = np.asarray(sv.copy(frame="EME2000").base, float)
             hop = sv
@@ -767,7 +783,7 @@ def check_switch(case):
     finally:
         use_config(dict(kind="missing"))
     return dict(nt=len({s["kind"] for s in case["steps"]}) > 1 or any(s["kind"] == "synth" for s in case["steps"]),
-                cls=cls + [era_label(case["mjd"])], ratio=worst)
+                cls=cls + [era_label(case["mjd"]), f"label:{case.get('label', 'UTC')}"], ratio=worst)
 
 
 # ----------------------------------------------------------------- facet: a frame name registered again
@@ -802,7 +818,7 @@ def check_rereg(case):
 
     env_eop_once()
     _rereg[0] += 1
-    dt = mkdate(case["mjd"], case["sod_us"])
+    dt = mkdate(case["mjd"], case["sod_us"], case.get("label", "UTC"))
     x = np.array(case["state"], float)
     worst = 0.0
     name = f"R{case['shard']}x{_rereg[0]}S"
